@@ -51,9 +51,11 @@ def run(tier, v):
     for fam in fams:
         vec = os.path.join(wd, "vec-%s.ndjson" % fam)
         exp = {}
+        got_ = []
+        r = vlib.tlc("MC_C05", pid=PID, workers=8, tag_sink=lambda tag, o: got_.append(o), env={"VERIF_FAM": fam, "VERIF_MAXLEN": 3 if tier == "thorough" else 2}, timeout=3000, heap="10g")
+        got_.sort(key=lambda o: (o["kind"], o["lines"]))          # TLC's workers print in no fixed order: the sampling below must not depend on it
         with open(vec, "w") as f:
-            def sink(tag, o):
-                i = len(exp)
+            for i, o in enumerate(got_):
                 exp[i] = o
                 head = ("\r\n".join(o["lines"]) + "\r\n\r\n").encode()
                 datas = [(head + b).hex() for b in BODIES]
@@ -62,7 +64,6 @@ def run(tier, v):
                     head_lf = ("\n".join(o["lines"]) + "\n\n").encode()
                     datas += [(head_lf + b).hex() for b in BODIES]
                 f.write(json.dumps({"id": i, "op": "parse", "kind": o["kind"], "datas": datas}) + "\n")
-            r = vlib.tlc("MC_C05", pid=PID, workers=8, tag_sink=sink, env={"VERIF_FAM": fam, "VERIF_MAXLEN": 3 if tier == "thorough" else 2}, timeout=3000, heap="10g")
         states += r.distinct
         trans += r.generated
         out = os.path.join(wd, "obs-%s.ndjson" % fam)
